@@ -98,3 +98,8 @@ Definition bijectionb (pairs : list (list Z * list Z)) (dirs : list (list Z)) : 
   str_nodupb (map fst pairs) && str_nodupb (map snd pairs) && str_nodupb dirs &&
   Nat.eqb (length pairs) (length dirs) &&
   forallb (fun p => str_mem (snd p) dirs) pairs.
+
+(* ---- C29: a vector (integer coordinates X in units of 1/D of the supercell vectors, stored as
+        numerators 2*X so that the half-open cube [-1/2, 1/2) is  -D <= 2X < D) is its own
+        half-cell image ------------------------------------------------------------------------- *)
+Definition in_half_cellb (D : Z) (X2 : list Z) : bool := forallb (fun x => (- D <=? x) && (x <? D)) X2.
